@@ -109,7 +109,7 @@ DMN_TB = ["hand model Model/Daemon.v of the daemon's control plane, epoll regist
           "Spec/DaemonSpec.v: my transcription of the ring life-cycle and routing rules from the property text"]
 DMN_ASSUME = ["level-triggered epoll; eventfd counter semantics; an epoll registration outlives close() while another descriptor of the same open file exists",
               "std::sync lock mutual exclusion"]
-reg(id="C11", props="Props/C11.v", proof_files=["Proofs/DaemonProofs.v"], families=[Dmn()], rule=DMN_RULE, trusted_base=DMN_TB, assumptions=DMN_ASSUME)
+reg(id="C11", props="Props/C11.v", proof_files=["Proofs/DaemonProofs.v", "Proofs/RingInvProofs.v"], families=[Dmn()], rule=DMN_RULE, trusted_base=DMN_TB, assumptions=DMN_ASSUME)
 reg(id="C17", props="Props/C17.v", proof_files=["Proofs/DaemonProofs.v"], families=[Dmn()], rule=DMN_RULE, trusted_base=DMN_TB, assumptions=DMN_ASSUME)
 MEM_RULE = (DMN_RULE + " || memory histories: SET_MEM_TABLE with 1..8 regions (sorted, unordered, duplicate, overlapping, unaligned mmap offsets), "
             "ADD_MEM_REG / REM_MEM_REG (absent, size-mismatched, shifted), user ranges across the 64-bit space, guest-side pwrite/pread on the shared files, "
